@@ -92,6 +92,11 @@ var slotBuilders = []slotBuilder{
 	{"update-pipeline", "update", updWith(func(g *Gen, l func() *Node) *Node {
 		return ArrN(ObjN("$set", ObjN("v", l())), ObjN("$replaceWith", ObjN("w", ObjN("$ifNull", ArrN(g.Ref(), l())))))
 	})},
+	{"update-pipeline-constants", "update", func(g *Gen, l func() *Node, coll, db string) *Node {
+		// pipeline-style update statement with its constants document `c` (values reachable as $$k in the pipeline)
+		st := ObjN("q", ObjN("k", l()), "u", ArrN(ObjN("$set", ObjN("v", FreeS("$$k"), "w", l()))), "c", ObjN("k", l(), "nested", ObjN("x", l(), "arr", ArrN(l()))), "multi", FreeB(false))
+		return cmdTail(ObjN("update", collN(coll), "updates", ArrN(st), "ordered", keep(BoolN(true))), db)
+	}},
 	{"delete-q", "delete", func(g *Gen, l func() *Node, coll, db string) *Node {
 		return cmdTail(ObjN("delete", collN(coll), "deletes", ArrN(ObjN("q", ObjN(g.Field(), l(), "z", ObjN("$in", ArrN(l()))), "limit", FreeI(0))), "ordered", keep(BoolN(true))), db)
 	}},
@@ -320,20 +325,36 @@ func (g *Gen) SearchCatalogue(paths []string) []*Case {
 	P := func(p string) *Node { return FreeS(p) }
 	ops := []opB{
 		{"text", func(p string) *Node { return ObjN("text", ObjN("query", l("str", "text"), "path", P(p))) }},
-		{"phrase", func(p string) *Node { return ObjN("phrase", ObjN("query", l("str", "phrase"), "path", P(p), "slop", FreeI(1))) }},
-		{"autocomplete", func(p string) *Node { return ObjN("autocomplete", ObjN("query", l("str", "autocomplete"), "path", P(p))) }},
-		{"wildcard", func(p string) *Node { return ObjN("wildcard", ObjN("query", l("str", "wildcard"), "path", P(p), "allowAnalyzedField", FreeB(true))) }},
+		{"phrase", func(p string) *Node {
+			return ObjN("phrase", ObjN("query", l("str", "phrase"), "path", P(p), "slop", FreeI(1)))
+		}},
+		{"autocomplete", func(p string) *Node {
+			return ObjN("autocomplete", ObjN("query", l("str", "autocomplete"), "path", P(p)))
+		}},
+		{"wildcard", func(p string) *Node {
+			return ObjN("wildcard", ObjN("query", l("str", "wildcard"), "path", P(p), "allowAnalyzedField", FreeB(true)))
+		}},
 		{"regex", func(p string) *Node { return ObjN("regex", ObjN("query", l("str", "regex"), "path", P(p))) }},
-		{"equals", func(p string) *Node { return ObjN("equals", ObjN("path", P(p), "value", l(g.pick("str", "num", "oid", "date", "bool"), "equals"))) }},
-		{"in", func(p string) *Node { return ObjN("in", ObjN("path", P(p), "value", ArrN(l("str", "in"), l("num", "in")))) }},
-		{"range", func(p string) *Node { return ObjN("range", ObjN("path", P(p), "gte", l("num", "range"), "lt", l("num", "range"))) }},
+		{"equals", func(p string) *Node {
+			return ObjN("equals", ObjN("path", P(p), "value", l(g.pick("str", "num", "oid", "date", "bool"), "equals")))
+		}},
+		{"in", func(p string) *Node {
+			return ObjN("in", ObjN("path", P(p), "value", ArrN(l("str", "in"), l("num", "in"))))
+		}},
+		{"range", func(p string) *Node {
+			return ObjN("range", ObjN("path", P(p), "gte", l("num", "range"), "lt", l("num", "range")))
+		}},
 		{"range-date", func(p string) *Node { return ObjN("range", ObjN("path", P(p), "gt", l("date", "range"))) }},
-		{"near", func(p string) *Node { return ObjN("near", ObjN("path", P(p), "origin", l("num", "near"), "pivot", FreeI(2))) }},
+		{"near", func(p string) *Node {
+			return ObjN("near", ObjN("path", P(p), "origin", l("num", "near"), "pivot", FreeI(2)))
+		}},
 		{"near-geo", func(p string) *Node {
 			return ObjN("near", ObjN("path", P(p), "origin", ObjN("type", FreeS("Point"), "coordinates", g.coord()), "pivot", FreeI(1000)))
 		}},
 		{"exists", func(p string) *Node { return ObjN("exists", ObjN("path", P(p))) }},
-		{"queryString", func(p string) *Node { return ObjN("queryString", ObjN("defaultPath", P(p), "query", l("str", "queryString"))) }},
+		{"queryString", func(p string) *Node {
+			return ObjN("queryString", ObjN("defaultPath", P(p), "query", l("str", "queryString")))
+		}},
 		{"moreLikeThis", func(p string) *Node { return ObjN("moreLikeThis", ObjN("like", ObjN(p, l("str", "moreLikeThis")))) }},
 		{"geoWithin-circle", func(p string) *Node {
 			return ObjN("geoWithin", ObjN("path", P(p), "circle", ObjN("center", ObjN("type", FreeS("Point"), "coordinates", g.coord()), "radius", l("num", "geo-radius"))))
